@@ -187,6 +187,10 @@ L3Progs == << Prog(<<For(<<"a", "b">>, "values", ListN(<<ListN(<<I(1), I(2)>>), 
                         Log(Bin("+", Var("a"), Var("b"))))>>),
               Prog(<<For(<<"a", "b">>, "entries", MapN(<< <<I(2), I(20)>>, <<I(1), I(30)>> >>),
                         Log(ListN(<<Var("a"), Var("b")>>)))>>),
+              Prog(<<For(<<"a", "b">>, "values", ListN(<<ListN(<<I(1)>>), ListN(<< >>), ListN(<<I(1), I(2), I(3)>>)>>),
+                        Log(ListN(<<Var("a"), Var("b")>>)))>>),
+              Prog(<<Blk(<<For(<<"a", "b">>, "values", ListN(<<ListN(<<I(1), I(2)>>), I(7)>>), Log(Var("a")))>>,
+                         << <<All, Log(I(9))>> >>, << >>)>>),
               Prog(<<Log(If2(I(1), I(2), I(3)))>>),
               Prog(<<Log(Compr("list", Bin("+", Var("x"), Var("x")), "x", "", Lit(StrV(<<97, 98>>)), None))>>),
               Prog(<<For(<<"x">>, "values", I(5), Log(Var("x"))), Log(I(1))>>) >>
